@@ -210,6 +210,26 @@ class Ledger:
                 return None
         return "not re-entrant: nothing the closure calls borrows the same thread-local again"
 
+    def t_infallible(self, site):
+        """unwrap/expect of the result of a function of the program that stores `Ok(..)` / `Some(..)` in its return place on every path (and
+        nothing else): `LineTracker::write_str(..).expect("should never fail")`"""
+        if site.kind != "unwrap" or not site.operands:
+            return None
+        x = site.operands[0]
+        while x[0] in ("ref", "deref"):
+            x = x[1]
+        if x[0] != "call" or str(x[1]) not in self.prog.fns:
+            return None
+        g = self.prog.fns[str(x[1])]
+        if g.bkind != "fn":
+            return None
+        rets = [s_ for b, i, s_ in g.assigns() if s_["p"]["l"] == 0 and not s_["p"].get("pr")]
+        if not rets or any(tt.get("dest", {}).get("l") == 0 and not tt.get("dest", {}).get("pr") for b, tt, c in g.calls()):
+            return None                       # the answer is handed through from a callee: not decided here
+        if all(s_["r"]["k"] == "agg" and s_["r"].get("variant") in ("Ok", "Some") for s_ in rets):
+            return "infallible: `%s` stores %s in its return place on every path" % (short(g.name), rets[0]["r"].get("variant"))
+        return None
+
     def _same_key(self, a, b):
         """do two wrappers borrow the same thread-local? (compared by the statics their bodies mention)"""
         def keys(n):
@@ -259,7 +279,7 @@ class Ledger:
 
     # ------------------------------------------------------------------ discharge
     def discharge(self, site):
-        for tac in (self.t_const, self.t_tls, self.t_infeasible, self.t_interval, self.t_guarded, self.t_peeked, self.t_constargs):
+        for tac in (self.t_const, self.t_tls, self.t_infeasible, self.t_interval, self.t_guarded, self.t_peeked, self.t_constargs, self.t_infallible):
             why = tac(site)
             if why:
                 site.tactic, site.why = tac.__name__[2:], why
